@@ -232,8 +232,9 @@ void c05_fog(vf::Tape & t, vf::Ctx & ctx)
   const Eigen::Matrix<double, NY, NX> Jg = g.jac(x).cast<double>();
   const Eigen::Matrix<double, NX, (NX > 0 && NY > 0) ? NX * NY : -1> Hg = g.hess(x).cast<double>();
 
-  // reference: second central differences of the composition in long double, h = 1e-4 (error ~1e-8)
-  const LD h = 1e-4L;
+  // reference: second central differences of the composition (a polynomial of degree 9) in long double at h and 2h,
+  // Richardson-extrapolated to O(h^4): the plain O(h^2) stencil was off by 2e-5 of the floor at x = 0 for ny = 4
+  const LD h = 1e-3L;
   MatL ref(nx, no * nx);
   for (int i = 0; i < nx; ++i)
     for (int j = 0; j < nx; ++j) {
@@ -243,8 +244,9 @@ void c05_fog(vf::Tape & t, vf::Ctx & ctx)
         xx(j) += sj * h;
         return f.eval(g.eval(xx));
       };
-      const VecL d2 = (at(1, 1) - at(1, -1) - at(-1, 1) + at(-1, -1)) / (4 * h * h);
-      for (int o = 0; o < no; ++o) ref(i, o * nx + j) = d2(o);
+      const VecL d1 = (at(1, 1) - at(1, -1) - at(-1, 1) + at(-1, -1)) / (4 * h * h);
+      const VecL d2 = (at(2, 2) - at(2, -2) - at(-2, 2) + at(-2, -2)) / (16 * h * h);
+      for (int o = 0; o < no; ++o) ref(i, o * nx + j) = (4 * d1(o) - d2(o)) / 3;
     }
   MatL got;
   if constexpr (Sparse) {
